@@ -208,18 +208,20 @@ theorem gv_mod {m full : MMap} (hv : ValidMap m) (hf : Filled m full) {name : St
 theorem scope_cases {m : MMap} (hv : ValidMap m) :
     assignment V3.X m c!"S" = c!"C" ∨ assignment V3.X m c!"S" = c!"U" := by
   have h := legal_mandatory hv (name := c!"S") (by decide)
-  have e : (lookup c!"S" V3.tables.legal).getD [] = [c!"C", c!"U"] := by decide +kernel
+  -- membership, not list equality: the order of the value tokens in the generated row is irrelevant
+  have e : ∀ t ∈ (lookup c!"S" V3.tables.legal).getD [], t ∈ [c!"C", c!"U"] := by decide +kernel
   unfold legalTok at h
-  rw [e] at h
+  replace h := e _ h
   simpa using h
 
 theorem modScope_cases {m : MMap} (hv : ValidMap m) :
     Spec.V3.eff (assignment V3.X m) c!"MS" c!"S" = c!"C" ∨
       Spec.V3.eff (assignment V3.X m) c!"MS" c!"S" = c!"U" := by
   obtain ⟨h, hx⟩ := legal_eff hv (name := c!"MS") (by decide)
-  have e : (lookup c!"MS" V3.tables.legal).getD [] = [c!"X", c!"C", c!"U"] := by decide +kernel
+  have e : ∀ t ∈ (lookup c!"MS" V3.tables.legal).getD [], t ∈ [c!"X", c!"C", c!"U"] := by
+    decide +kernel
   unfold legalTok at h
-  rw [e] at h
+  replace h := e _ h
   simp only [List.mem_cons, List.not_mem_nil, or_false] at h
   rcases h with h | h | h
   · exact absurd h hx
@@ -238,9 +240,10 @@ theorem gv_PR {m full : MMap} (hv : ValidMap m) (hf : Filled m full) :
     sv_base hf (by decide)
   have hl : legalTok c!"PR" (assignment V3.X m c!"PR") := legal_mandatory hv (by decide)
   rcases scope_cases hv with hs | hs
-  · have e : (lookup c!"PR" V3.tables.legal).getD [] = [c!"N", c!"L", c!"H"] := by decide +kernel
+  · have e : ∀ t ∈ (lookup c!"PR" V3.tables.legal).getD [], t ∈ [c!"N", c!"L", c!"H"] := by
+      decide +kernel
     unfold legalTok at hl
-    rw [e] at hl
+    replace hl := e _ hl
     have hc : ((c!"PR" = c!"PR" ∧ (ctxOf m full).scope = c!"C") ∨
         (c!"PR" = c!"MPR" ∧ (ctxOf m full).modScope = c!"C")) := Or.inl ⟨rfl, hs⟩
     have hsv' : (lookup c!"PR" (ctxOf m full).metrics).getD V3.X = assignment V3.X m c!"PR" := hsv
@@ -265,10 +268,10 @@ theorem gv_MPR {m full : MMap} (hv : ValidMap m) (hf : Filled m full) :
   change legalTok c!"MPR" (Spec.V3.eff (assignment V3.X m) c!"MPR" c!"PR") at hl
   change Spec.V3.eff (assignment V3.X m) c!"MPR" c!"PR" ≠ V3.X at hx
   rcases modScope_cases hv with hs | hs
-  · have e : (lookup c!"MPR" V3.tables.legal).getD [] = [c!"X", c!"N", c!"L", c!"H"] := by
+  · have e : ∀ t ∈ (lookup c!"MPR" V3.tables.legal).getD [], t ∈ [c!"X", c!"N", c!"L", c!"H"] := by
       decide +kernel
     unfold legalTok at hl
-    rw [e] at hl
+    replace hl := e _ hl
     have hl' : Spec.V3.eff (assignment V3.X m) c!"MPR" c!"PR" ∈ [c!"N", c!"L", c!"H"] := by
       rcases List.mem_cons.mp hl with h | h
       · exact absurd h hx
